@@ -111,4 +111,33 @@ def check(facts):
                             "that is a prefix of a longer one wins" % (verdict or "no descending-length sort of this vector dominates it"),
                        facts.loc(fn, s["line"]))
     r.floor("stringset_constructions", n, 1)
+    # a class with strings *and* code points is an alternation: strings (longest first among themselves) before the bracket
+    fnn = "parse::ClassSet::node"
+    if facts.has_body(fnn):
+        body = facts.body(fnn)
+        m = 0
+        for bi, i, st in body.iter_stmts():
+            if st["k"] != "assign" or st["rv"]["k"] != "agg" or st["rv"].get("ak") != "array" or len(st["rv"].get("ops", [])) != 2:
+                continue
+            if "ir::Node" not in str(st["rv"].get("ty")):
+                continue
+            m += 1
+            key = "%s alternation order #%d" % (fnn, m)
+
+            def from_strings(op):
+                if op.get("k") not in ("copy", "move"):
+                    return False
+                d = body.single_def(body.root_of(op["pl"]["l"])[0])
+                return bool(d) and d[2] == "call" and (d[3].get("callee") or "").endswith("into_node")
+            a0, a1 = st["rv"]["ops"]
+            if from_strings(a0) and not from_strings(a1):
+                r.ok(key, "strings, then the code-point bracket")
+            else:
+                r.fail(key, "the alternation built for a class with strings and code points does not try the strings first (line %s): a code "
+                            "point that is a prefix of a string member wins over the longer string (`[a\\q{ab}]` on \"ab\" matches only \"a\")" % st["line"],
+                       facts.loc(fnn, st["line"]))
+        if m == 0:
+            r.error("ClassSet::node: the [strings, bracket] alternation was not found")
+    else:
+        r.error("anchor %s not found" % fnn)
     return r
